@@ -110,6 +110,10 @@ def anchor_universe() -> dict:
     w1 = [("uint", 24), ("int", 40), ("uint", 48), ("int", 56), ("uint", 16), ("int", 32), ("int", 64), ("uint", 8), ("float", 32), ("float", 64), ("float", 16), ("int", 24), ("uint", 40), ("int", 48), ("uint", 56)]
     w2 = [("int", 24), ("uint", 24), ("uint", 40), ("int", 16), ("int", 48), ("uint", 56), ("uint", 8), ("float", 32), ("int", 8), ("float", 16), ("uint", 64), ("float", 64)]
     types.append(td("ArrBytes", arrs("p", w1) + [fld("odd", {"t": "bool"})] + arrs("q", w2), extent_bits=8192))
+    # a delimited type with a small extent reachable ONLY through arrays: delimiter headers larger than the extent (valid; the
+    # excess is skipped) fit into mutated encodings of the container
+    types.append(td("Tiny", [fld("x", prim("uint", 8))], sealed=False, extent_bits=16))
+    types.append(td("ArrDel", [fld("v", {"t": "varr", "elem": ref("Tiny"), "cap": 3, "incl": True}), fld("w", {"t": "farr", "elem": ref("Tiny"), "n": 2}), fld("k", prim("uint", 8))]))
     # fixed port-ID 0 is a valid port-ID (message and service)
     types.append(dict(td("PortZero", [fld("x", prim("uint", 8))]), port_id=0))
     types.append({"ns": ["anchor"], "name": "SvcZero", "major": 1, "minor": 0, "port_id": 0, "kind": "service", "deprecated": False, "doc": [],
